@@ -417,79 +417,130 @@ func (e *effEngine) loadFresh(u *ssa.UnOp) (bool, string) {
 	case *ssa.IndexAddr:
 		return e.elemFresh(src.X, u.Parent())
 	case *ssa.Parameter:
-		// out-parameter pointing at a caller's local variable: every call site
-		// passes the address of a local whose stores are all fresh, and every
-		// store through the parameter here is fresh.
-		if ok, why := e.Fresh(src); !ok {
-			return false, "load through a shared pointer (" + why + ")"
-		}
-		fn := src.Parent()
-		idx := -1
-		for i, p := range fn.Params {
-			if p == src {
-				idx = i
-			}
-		}
-		node := e.p.CallGraph().Nodes[fn]
-		if node == nil || len(node.In) == 0 || idx < 0 {
-			return false, "load through pointer parameter without known callers"
-		}
-		for _, in := range node.In {
-			if in.Site == nil || !e.scope[in.Caller.Func] {
-				continue
-			}
-			args := in.Site.Common().Args
-			ai := idx
-			if in.Site.Common().IsInvoke() {
-				ai--
-			}
-			if ai < 0 || ai >= len(args) {
-				return false, "load through pointer parameter (argument mismatch)"
-			}
-			switch a := args[ai].(type) {
+		return e.outParamFresh(src, 0)
+	case *ssa.UnOp:
+		// the pointer was itself loaded from a cell that only ever holds an out-parameter of the
+		// enclosing function (a parameter captured by a closure, or spilled)
+		if src.Op == token.MUL {
+			var cell *ssa.Alloc
+			switch y := src.X.(type) {
 			case *ssa.Alloc:
-				if ok, why := e.cellFresh(a, map[ssa.Value]bool{}); !ok {
-					return false, "caller's variable holds a shared value (" + why + ")"
-				}
-			case *ssa.FieldAddr:
-				// address of a field of a caller-local object
-				if _, isAlloc := rootOf(a.X).(*ssa.Alloc); !isAlloc {
-					return false, "load through pointer parameter: caller passes the address of a field of a non-local object"
-				}
-				for _, b := range in.Caller.Func.Blocks {
-					for _, ins := range b.Instrs {
-						st, ok := ins.(*ssa.Store)
-						if !ok {
-							continue
+				cell = y
+			case *ssa.FreeVar:
+				cell = freeVarCell(y)
+			}
+			if cell != nil {
+				sts := storesInto(cell)
+				if len(sts) == 1 && sts[0].Addr == ssa.Value(cell) {
+					if par, ok := sts[0].Val.(*ssa.Parameter); ok {
+						if ok, why := e.outParamFresh(par, 0); !ok {
+							return false, why
 						}
-						fa, ok := st.Addr.(*ssa.FieldAddr)
-						if !ok || fa.Field != a.Field || !sameBase(fa.X, a.X) {
-							continue
+						// stores through this alias in the function at hand
+						for _, b := range u.Parent().Blocks {
+							for _, ins := range b.Instrs {
+								st, ok := ins.(*ssa.Store)
+								if !ok {
+									continue
+								}
+								if ld, ok := st.Addr.(*ssa.UnOp); ok && ld.Op == token.MUL && ld.X == src.X {
+									if ok, why := e.Fresh(st.Val); !ok {
+										return false, "store of a shared value through the captured out-parameter (" + why + ")"
+									}
+								}
+							}
 						}
-						if ok, why := e.Fresh(st.Val); !ok {
-							return false, "caller's field holds a shared value (" + why + ")"
-						}
+						return true, "captured out-parameter to a caller's local holding only fresh values"
 					}
 				}
-			case *ssa.Parameter:
-				if a.Parent() == fn {
-					continue // recursive call passing the same out-parameter on
-				}
-				return false, "load through pointer parameter passed on by " + FuncName(in.Caller.Func)
-			default:
-				return false, "load through pointer parameter: caller passes a non-local address"
 			}
 		}
-		for _, ref := range *src.Referrers() {
-			if st, ok := ref.(*ssa.Store); ok && st.Addr == src {
-				if ok, why := e.Fresh(st.Val); !ok {
-					return false, "store of a shared value through the out-parameter (" + why + ")"
-				}
-			}
-		}
-		return true, "out-parameter to a caller's local holding only fresh values"
 	}
 	return false, "load through pointer"
+}
+
+// outParamFresh: src is an out-parameter pointing at a caller's local variable: every call site
+// passes the address of a local whose stores are all fresh (or its own such out-parameter), and
+// every store through the parameter here is fresh.
+func (e *effEngine) outParamFresh(src *ssa.Parameter, depth int) (bool, string) {
+	// out-parameter pointing at a caller's local variable: every call site
+	// passes the address of a local whose stores are all fresh, and every
+	// store through the parameter here is fresh.
+	if ok, why := e.Fresh(src); !ok {
+		return false, "load through a shared pointer (" + why + ")"
+	}
+	fn := src.Parent()
+	idx := -1
+	for i, p := range fn.Params {
+		if p == src {
+			idx = i
+		}
+	}
+	node := e.p.CallGraph().Nodes[fn]
+	if node == nil || len(node.In) == 0 || idx < 0 {
+		return false, "load through pointer parameter without known callers"
+	}
+	for _, in := range node.In {
+		if in.Site == nil || !e.scope[in.Caller.Func] {
+			continue
+		}
+		args := in.Site.Common().Args
+		ai := idx
+		if in.Site.Common().IsInvoke() {
+			ai--
+		}
+		if ai < 0 || ai >= len(args) {
+			return false, "load through pointer parameter (argument mismatch)"
+		}
+		switch a := args[ai].(type) {
+		case *ssa.Alloc:
+			if ok, why := e.cellFresh(a, map[ssa.Value]bool{}); !ok {
+				return false, "caller's variable holds a shared value (" + why + ")"
+			}
+		case *ssa.FieldAddr:
+			// address of a field of a caller-local object
+			if _, isAlloc := rootOf(a.X).(*ssa.Alloc); !isAlloc {
+				return false, "load through pointer parameter: caller passes the address of a field of a non-local object"
+			}
+			for _, b := range in.Caller.Func.Blocks {
+				for _, ins := range b.Instrs {
+					st, ok := ins.(*ssa.Store)
+					if !ok {
+						continue
+					}
+					fa, ok := st.Addr.(*ssa.FieldAddr)
+					if !ok || fa.Field != a.Field || !sameBase(fa.X, a.X) {
+						continue
+					}
+					if ok, why := e.Fresh(st.Val); !ok {
+						return false, "caller's field holds a shared value (" + why + ")"
+					}
+				}
+			}
+		case *ssa.Parameter:
+			if a.Parent() == fn {
+				continue // recursive call passing the same out-parameter on
+			}
+			// passed on by a caller that received it as an out-parameter itself
+			if depth < 3 {
+				if ok, why := e.outParamFresh(a, depth+1); !ok {
+					return false, "load through pointer parameter passed on by " + FuncName(in.Caller.Func) + " (" + why + ")"
+				}
+				continue
+			}
+			return false, "load through pointer parameter passed on by " + FuncName(in.Caller.Func)
+		default:
+			return false, "load through pointer parameter: caller passes a non-local address"
+		}
+	}
+	for _, ref := range *src.Referrers() {
+		if st, ok := ref.(*ssa.Store); ok && st.Addr == src {
+			if ok, why := e.Fresh(st.Val); !ok {
+				return false, "store of a shared value through the out-parameter (" + why + ")"
+			}
+		}
+	}
+	return true, "out-parameter to a caller's local holding only fresh values"
 }
 
 func rootOf(v ssa.Value) ssa.Value {
